@@ -14,7 +14,10 @@ Local Open Scope Z_scope.
 (* ------------------------------------------------------------------ *)
 
 (* the C dialect the emitted code is compiled in by both supported compilers, from the scraped base flags *)
-Definition base_mode : cmode := mk_mode (gcc_base_has_fwrapv && clang_base_has_fwrapv) false.
+(* -fwrapv in the effective base flags of EVERY compiler entry of the GNU family (gcc, clang, zig cc, emcc, g++,
+   clang++: Gen.gnu_family_base_has_fwrapv, inheritance and aliases of cdefs.lua resolved) *)
+Definition base_mode : cmode :=
+  mk_mode (gcc_base_has_fwrapv && clang_base_has_fwrapv && forallb (fun b => b) gnu_family_base_has_fwrapv) false.
 
 (* the division helpers exactly as emitted: the position of the `b == -1` line comes from Gen.v *)
 Definition idiv_helper := emitted_idiv_helper idiv_guard_first.
